@@ -89,6 +89,18 @@ def predicate(case, i, tb):
                 # crossing: must be the root of a mount that is currently attached
                 ok = any(m['idx'] == idx and m['root'] == ino and ref['owner'].get(idx) == m['bid'] for m in ref['mounts'].values())
                 if not ok: v('%s = %#x handed out by a pseudo directory is not the root of an attached mount' % (what, x), kind='bad-crossing', what=what)
+    # 6. codec: a backend inode number is refused exactly when it is above VFS_MAX_INO
+    if t1[0] == 'backend' and (not two or (t2[0] == 'backend' and t1[3] == t2[3])) and evs and st['ans']['err'] == 0:
+        nums = None
+        if op in ('lookup', 'link') or op in tb.entry_ops: nums = [st['ans']['ent']['ino']]
+        elif op == 'readdir': nums = [d[0] for d in st['ans']['dir'][:st['limit'] + 1]]
+        elif op == 'readdirplus': nums = [d[2]['ino'] for d in st['ans']['dir'][:st['limit'] + 1]]
+        if nums is not None:
+            toobig = any(n > MAX_INO for n in nums)
+            if o['status'] == 'err' and not toobig:
+                v('%s failed (%s) although every inode number the backend answered (%s) is within VFS_MAX_INO' % (op, o['raw'][:40], nums[:4]), kind='refused-valid-ino')
+            if o['status'] == 'ok' and toobig and op not in ('readdir', 'readdirplus'):
+                v('%s succeeded although the backend answered inode %s > VFS_MAX_INO' % (op, nums[:4]), kind='accepted-big-ino')
     # 5. getattr: st_ino names the inode that was asked for
     if op in ('getattr', 'setattr') and o['status'] == 'ok' and t1[0] == 'backend':
         want = (t1[3] << 56) | t1[2]
@@ -273,6 +285,10 @@ def run_check(tier, seed):
     except vfs_src.TranslateError as ex:
         broken.append({'kind': 'translator', 'item': 'props/vfs_src.py', 'error': str(ex)})
     audit = std_audit(ev, PROP, broken)
+    okm, outm = coq_make(['Model/VfsRun.vo'])          # the executable history runner used by the tie
+    if not okm:
+        es = coq_error_site(outm)
+        broken.append({'kind': 'proof', 'theorem_or_lemma': es[2] if es else None, 'site': list(es[:2]) if es else None, 'message': es[3] if es else outm[-1500:]})
     ok, out, bindir = cargo_build(['vfs'])
     if not ok:
         broken.append({'kind': 'harness-build', 'log': out[-3000:]})
@@ -293,8 +309,8 @@ def run_check(tier, seed):
         return n
     evals = evaluate(cases)
     dis = []
-    if audit['ok']:
-        dis = check_model('c07', cases, ev, broken)
+    if audit['ok'] and okm:
+        dis = check_model('c07', cases, ev, broken, shard=6)
     if (dis or broken) and not findings:
         # a proof or the tie broke: search harder for a concrete failing input before giving up
         more = gen_cases(sess, random.Random(seed + 1), tb, 'thorough', findings)
